@@ -36,9 +36,9 @@ ANCHORS = ['debian._deb822_repro.parsing:Deb822ParagraphToStrWrapperMixin.__seti
            'debian._deb822_repro.parsing:Deb822ValueLineElement.add_newline_if_missing']
 MUST_REACH = ANCHORS[:6]
 FLOORS = {'quick': {'nontrivial': 1500, 'monitors': {'M.step': 8000, 'M.reparse': 8000, 'K4': 5000, 'K5': 5000},
-                    'counters': {'op:set': 1500, 'op:add': 1000, 'op:del': 500, 'op:del-to-empty': 60, 'add-after-missing-final-newline': 30, 'big-document': 12, 'key-kind:stale-name-token': 150, 'key-kind:current-name-token': 150, 'key-kind:name-index-tuple': 150}},
+                    'counters': {'op:set': 1500, 'op:add': 1000, 'op:del': 500, 'op:del-to-empty': 60, 'add-after-missing-final-newline': 30, 'big-document': 12, 'key-kind:stale-name-token': 150, 'key-kind:current-name-token': 150, 'key-kind:name-index-tuple': 150, 'refused:attempt:value': 700, 'refused:attempt:name': 140, 'refused:attempt:del-absent': 80}},
           'thorough': {'nontrivial': 100000, 'monitors': {'M.step': 500000, 'M.reparse': 500000, 'K4': 300000, 'K5': 300000},
-                       'counters': {'op:set': 100000, 'op:add': 60000, 'op:del': 35000, 'op:del-to-empty': 4000, 'add-after-missing-final-newline': 2000, 'big-document': 1500, 'key-kind:stale-name-token': 15000, 'key-kind:current-name-token': 15000, 'key-kind:name-index-tuple': 15000}}}
+                       'counters': {'op:set': 100000, 'op:add': 60000, 'op:del': 35000, 'op:del-to-empty': 4000, 'add-after-missing-final-newline': 2000, 'big-document': 1500, 'key-kind:stale-name-token': 15000, 'key-kind:current-name-token': 15000, 'key-kind:name-index-tuple': 15000, 'refused:attempt:value': 100000, 'refused:attempt:name': 20000, 'refused:attempt:del-absent': 12000}}}
 LEVEL_TEXT = ('Runtime monitoring: seeded edit histories on live format-preserving documents; after every operation the dump is '
               'compared byte-for-byte with the layout model outside the edited field, the edited region is checked for '
               'line-wholeness/name/comment hand-over, and a fresh parse plus the live dict view are compared with a list model; '
@@ -100,8 +100,20 @@ def readback(v):
     return '\n'.join([first.strip()] + lines)
 
 
+BAD_NAMES = ['Bad Name', '', ' x', 'x\n', 'Na\tme']
+
+
+def bad_value(r, ids):
+    """A value the unchanged tree refuses with ValueError through every entry point (a later line that is no continuation
+    line, an empty or whitespace-only line in the middle, a trailing comment line, a line that reads as another field)."""
+    a, b = ids.next(), ids.next()
+    return r.choice(['%s\n%s' % (a, b), '%s\n\n %s' % (a, b), '%s\n \n %s' % (a, b), '%s\n#%s' % (a, b), '%s\n %s\nInjected: x' % (a, b),
+                     '%s\n.' % a, '%s\n %s\n\n' % (a, b), '%s\n %s\n%s' % (a, b, b), '\n%s' % a])
+
+
 def cases(ctx):
     r = ctx.rng('docs')
+    r2 = ctx.rng('refused')
     for _ in range(ctx.size(3000, 450000)):
         big = r.random() < .012
         doc = rtdoc.gen_doc(r, big=big)
@@ -138,6 +150,23 @@ def cases(ctx):
                 names[pi] = [x for x in names[pi] if x != n]
                 ops.append(['del', pi, r.choice([n, n, n.upper(), n.lower()])])
         if ops:
+            # REFUSED operations among the edits (own stream; the 'docs' stream above is untouched): an assignment of a value that
+            # cannot be a field value, an assignment under a name that cannot be a field name, a deletion of an absent field.
+            # Whatever was refused is no edit: the document - above all the field's own comment lines - stays as it was.
+            if r2.random() < .4:
+                for _ in range(r2.choice([1, 1, 2, 3])):
+                    pi = r2.randrange(len(doc['paras']))
+                    k = r2.random()
+                    if k < .6:
+                        n = r2.choice([f['name'] for f in doc['paras'][pi]])
+                        bad = ['bad', pi, r2.choice([n, n, n.upper(), n.lower()]), bad_value(r2, ids), r2.choice(HOWS), 'value']
+                    elif k < .75:
+                        bad = ['bad', pi, r2.choice(['Brand-New', 'zz-new']), bad_value(r2, ids), r2.choice(HOWS), 'value']
+                    elif k < .9:
+                        bad = ['bad', pi, r2.choice(BAD_NAMES), ids.next(), 'item', 'name']
+                    else:
+                        bad = ['bad', pi, r2.choice(['No-Such-Field', 'absent']), None, 'del', 'del-absent']
+                    ops.insert(r2.randint(0, len(ops)), bad)
             yield {'kind': 'edit', 'doc': doc, 'ops': ops}
 
 
@@ -201,6 +230,58 @@ def run_case(ctx, case):
         before = rtdoc.doc_text(model)
         idx = _find(fields, key)
         is_last_para = pi == len(model['paras']) - 1
+        if kind == 'bad':
+            what = op[5]
+            ctx.count('refused:attempt:' + what)
+            try:
+                if what == 'del-absent':
+                    if idx is not None:
+                        continue
+                    del live[key]
+                else:
+                    do_set(live, key, op[3], op[4])
+                raised = None
+            except Exception as e:
+                raised = e
+            try:
+                after = f.dump()
+            except Exception as e:
+                ctx.violation('dump-raises-after-refused-operation/%s' % type(e).__name__, 'step %d %r on %r (refused with %r): %r' % (step, op, before, raised, e))
+                return
+            if raised is None:
+                # accepted (an implementation's choice I have no model for): nothing demanded, the history ends here
+                ctx.count('refused:accepted-instead:' + what)
+                if after == before:
+                    continue
+                return
+            ctx.count('refused:raised:%s:%s' % (what, type(raised).__name__))
+            ctx.mon('M.refused')
+            if after != before:
+                # the field's own lines may be the implementation's business; everything else is not
+                pre = model['lead']
+                for j in range(pi):
+                    pre += rtdoc.para_text(model['paras'][j]) + model['seps'][j]
+                post = ''
+                for j in range(pi + 1, len(model['paras'])):
+                    post += model['seps'][j - 1] + rtdoc.para_text(model['paras'][j])
+                post += model['trail']
+                if idx is None or what != 'value':
+                    inside_only = False
+                else:
+                    pre += rtdoc.para_text(fields[:idx]) + fields[idx]['comments']
+                    post = rtdoc.para_text(fields[idx + 1:]) + post
+                    inside_only = after.startswith(pre) and after.endswith(post) and len(after) >= len(pre) + len(post)
+                if not inside_only:
+                    ctx.violation('refused-operation-changed-bytes-outside-the-field/%s' % what,
+                                  'step %d %r raised %r, yet\nbefore=%r\nafter =%r' % (step, op, raised, before, after))
+                    return
+                ctx.count('refused:changed-inside-the-field-only')
+                return
+            if idx is not None and what == 'value' and fields[idx]['comments']:
+                ctx.count('refused:on-field-with-comments')
+            if not _check_views(ctx, step, op, f, paras, model, parse_deb822_file):
+                return
+            continue
         if kind == 'set':
             value = op[3]
             is_add = idx is None
@@ -326,6 +407,8 @@ def _check_views(ctx, step, op, f, paras, model, parse):
     want = [[(fl['name'], fl['value']) for fl in p] for p in model['paras']]
     # live dict interface
     for live, p in zip(paras, want):
+        if op[0] == 'bad' and not p:
+            continue
         got = [(k, live[k]) for k in live.keys()]
         if got != p:
             ctx.violation('live-dict-view-differs-from-model', 'step %d %r: live %r model %r' % (step, op, got, p))
